@@ -407,6 +407,13 @@ def run(ctx):
            "(never by a program's store: a write to 0xF9 sets the mask only)", p.need_type(BUS)["file"],
            "callers of Bus::misr_mut: %s" % callers)
 
+    # the write port is the CPU's: "set from outside" goes through the input setters and never through the address decoder
+    # (a write to 0xFC-0xFF reaches the timer and the output registers, not the input registers)
+    wcallers = sorted(b_ for b_, cs_ in cg.items() if (BUS + "::write") in cs_ and "::tests::" not in b_)
+    chk.ob("write-port-callers", set(wcallers) <= {RMP + "MachineAfterAluCalculations::<'a>::write_to_memory"} and wcallers,
+           "Bus::write is driven only by the CPU's write stage; nothing outside the machine reaches the address decoder's write side",
+           p.need_type(BUS)["file"], "callers of Bus::write: %s" % wcallers, "who-may-call over the resolved call graph")
+
     # ---- single writers -----------------------------------------------------------
     expect_writers = {
         "input_reg": {BUS + "::input_fc", BUS + "::input_fd", BUS + "::input_fe", BUS + "::input_ff",
